@@ -216,9 +216,15 @@ func c11GenPipe(rng *sim.Rand) *c11PipeSc {
 	// requests carry fail scripts for the backend
 	resObs := sc.Kind == "Proxy" && rng.Bool(0.65)
 	pTight := []float64{0, 0.15, 0.5}[rng.Intn(3)]
+	// breaker focus: the tight breaker is ADDED (and removed again) by updates, so
+	// that its reference state is exact in the generation built by Inherit
+	cbFocus := resObs && pTight >= 0.5
 	if resObs {
 		g.V = 6 + rng.Intn(2)
 		g.Res = c11GenResil(rng, pTight)
+		if cbFocus {
+			g.Res.Main.CB, g.Res.Cand.CB = rng.PickStr("", "ample"), rng.PickStr("", "ample", "tight")
+		}
 	}
 	sc.Gens = append(sc.Gens, g)
 	ng := rng.Pick(1, 1, 2, 2, 3)
@@ -234,7 +240,19 @@ func c11GenPipe(rng *sim.Rand) *c11PipeSc {
 		if resObs {
 			// keep / add / remove / change the policies (also while the kind is
 			// temporarily another one: the next Proxy generation then starts afresh)
-			n.Res = c11EditResil(rng, sc.Gens[len(sc.Gens)-1].Res, pTight)
+			prevRes := sc.Gens[len(sc.Gens)-1].Res
+			n.Res = c11EditResil(rng, prevRes, pTight)
+			if cbFocus {
+				for _, pl := range [][2]*c11PoolRes{{&prevRes.Main, &n.Res.Main}, {&prevRes.Cand, &n.Res.Cand}} {
+					if pl[0].CB == "tight" {
+						if rng.Bool(0.7) {
+							pl[1].CB = rng.PickStr("", "ample")
+						}
+					} else if rng.Bool(0.6) {
+						pl[1].CB = "tight"
+					}
+				}
+			}
 		}
 		if rng.Bool(0.15) {
 			// same filter name, another kind
@@ -291,8 +309,21 @@ func c11GenPipe(rng *sim.Rand) *c11PipeSc {
 			if resObs && rng.Bool(0.75) {
 				q.FailN = rng.Pick(1, 1, 1, 2, 2, 3)
 				q.FailKind = rng.PickStr("conn", "conn", "code", "code", "code", "slow")
+				if cbFocus && rng.Bool(0.6) {
+					// breaker focus: calls that fail whatever the retry policy is
+					q.FailN, q.FailKind = 3, "conn"
+				}
 			}
 		}
+	}
+	if cbFocus && rng.Bool(0.6) {
+		// breaker focus: one client, strictly sequential calls (the reference
+		// state of a tight breaker is exact only as long as calls do not overlap)
+		var one c11Client
+		for _, c := range sc.Clients {
+			one.Reqs = append(one.Reqs, c.Reqs...)
+		}
+		sc.Clients = []c11Client{one}
 	}
 	return sc
 }
